@@ -247,3 +247,33 @@ func isTimeout(err error) bool {
 }
 
 const e2Stall = 20 * time.Second
+
+// pokeDispatcher makes the shared epoll loop return from its (up to 1 s) idle wait, so that posted lambdas - the second half of
+// every Session.Close - run now. A spare session pair receives a polling event, which is harmless on an empty queue.
+var pokePair *pairT
+
+func pokeDispatcher() {
+	if pokePair == nil || pokePair.c.IsClosed() || pokePair.s.IsClosed() {
+		pokePair = newPair(defaultPairCfg)
+	}
+	_ = pokePair.c.eventConn.write(pollingEventWithVersion[pokePair.c.communicationVersion])
+}
+
+// waitPoked is waitUntil with the dispatcher kept awake.
+func waitPoked(d time.Duration, cond func() bool) bool {
+	deadline := time.Now().Add(d)
+	for i := 0; ; i++ {
+		if cond() {
+			return true
+		}
+		if time.Now().After(deadline) {
+			return cond()
+		}
+		pokeDispatcher()
+		if i < 20 {
+			time.Sleep(50 * time.Microsecond)
+		} else {
+			time.Sleep(time.Millisecond)
+		}
+	}
+}
